@@ -697,10 +697,11 @@ class Header(Iterable):
         n = 0
         nn = self.n
         for v in self._instream:
-            if n >= nn:
-                break
             yield v
             n += 1
+            if n >= nn:
+                # Stop here; do not pull one more element (like `AsyncHeader`).
+                break
 
 
 class Tailer(Iterable):
